@@ -124,14 +124,17 @@ pub(crate) mod b {
                             for trailer in trailers {
                                 let entries: Vec<(String, String)> =
                                     (0..k).map(|e| (idents[(i + e) % 4].to_string(), decls[(j + e) % 6].to_string())).collect();
-                                let body = entries.iter().map(|(c, d)| format!("{}{}{{{}}}", c, sep, d)).collect::<Vec<_>>().join("\n");
-                                let text = format!("{}\n{}{}", header, body, trailer);
-                                let got = parser::parse_css_legend(&text);
-                                if got.as_ref().ok() != Some(&entries) {
-                                    println!("BOUNDED-WITNESS legend {:?} parsed as {:?}", text, got);
-                                    panic!("legend entries in order");
+                                // entries on consecutive lines, or with empty / blank lines (also after the header) in between
+                                for joiner in ["\n", "\n\n", "\n \t\n"] {
+                                    let body = entries.iter().map(|(c, d)| format!("{}{}{{{}}}", c, sep, d)).collect::<Vec<_>>().join(joiner);
+                                    let text = format!("{}{}{}{}", header, joiner, body, trailer);
+                                    let got = parser::parse_css_legend(&text);
+                                    if got.as_ref().ok() != Some(&entries) {
+                                        println!("BOUNDED-WITNESS legend {:?} parsed as {:?}", text, got);
+                                        panic!("legend entries in order");
+                                    }
+                                    n += 1;
                                 }
-                                n += 1;
                             }
                         }
                     }
